@@ -1,11 +1,179 @@
-//! C16 -- not built yet (stub so the crate layout is stable).
-use crate::engine::report::{Ctx, Report};
-use serde_json::Value;
+//! C16 -- terminal output is delivered in order, exactly once, and frames are never torn.
+//!
+//! (a) explicit-state BFS on the real `IOQueue` against a byte model (prop/ioqueue.rs);
+//! (b) deviation-bounded exploration of the real `UnixTerminal` on a pseudo-terminal whose
+//!     kernel answers are owned by the harness (prop/term_common.rs): short writes, EAGAIN,
+//!     EINTR, withheld writability, at every system call of every session, up to the bound.
+use super::term_common::{self as tc, Focus};
+use crate::engine::report::{Ctx, Report, Samples, Tier, Violation, Violations};
+use crate::engine::workers::{self, WorkerCtx};
+use serde_json::{json, Value};
+use std::time::{Duration, Instant};
 
-pub fn run(_ctx: &Ctx) -> Result<Report, String> {
-    Err("C16: check not built yet".into())
+pub fn units(focus: Focus) -> Vec<(usize, usize)> {
+    let sessions = match focus {
+        Focus::C16 => tc::sessions_c16(),
+        Focus::C17 => tc::sessions_c17(),
+    };
+    let mut u = vec![];
+    for (i, s) in sessions.iter().enumerate() {
+        // every crash point (the terminal is dropped after the first k actions) and the full session
+        for k in 0..=s.acts.len() {
+            // Arrive/Schedule alone change nothing observable for a crash point
+            if k > 0 && k < s.acts.len() && matches!(s.acts[k - 1], tc::Act::Schedule(_)) {
+                continue;
+            }
+            u.push((i, k));
+        }
+    }
+    u
 }
 
-pub fn replay(_w: &Value) -> Result<(bool, String), String> {
-    Err("C16: check not built yet".into())
+pub fn worker_for(focus: Focus, ctx: &Ctx, mut wc: WorkerCtx) {
+    tc::prepare_process();
+    let sessions = match focus {
+        Focus::C16 => tc::sessions_c16(),
+        Focus::C17 => tc::sessions_c17(),
+    };
+    let all = units(focus);
+    for (ui, (si, upto)) in all.iter().enumerate() {
+        if ui % wc.shards != wc.shard {
+            continue;
+        }
+        if (ui as u64) < wc.resume {
+            continue;
+        }
+        let s = &sessions[*si];
+        let desc = format!("{}:{}", s.name, upto);
+        wc.begin_case(ui as u64, desc.as_bytes());
+        let mut found = vec![];
+        let (b_all, b_short, short_points) = match ctx.tier {
+            Tier::Quick => (2usize, 3usize, 22usize),
+            Tier::Thorough => (3, 4, 20),
+        };
+        let first = match tc::explore_session(focus, s, *upto, b_all, 400_000, &mut found) {
+            Ok(st) => st,
+            Err(e) => {
+                wc.note("machinery_error", json!(e));
+                continue;
+            }
+        };
+        let mut st = first.clone();
+        let mut bound = b_all;
+        if first.max_points <= short_points && found.is_empty() {
+            match tc::explore_session(focus, s, *upto, b_short, 400_000, &mut found) {
+                Ok(s2) => {
+                    st = s2;
+                    bound = b_short;
+                }
+                Err(e) => {
+                    wc.note("machinery_error", json!(e));
+                    continue;
+                }
+            }
+        }
+        wc.count("executions", st.executions);
+        wc.count("units", 1);
+        wc.count("distinct_outcomes", st.distinct_outcomes as u64);
+        for (d, n) in st.by_deviations.iter().enumerate() {
+            wc.count(&format!("executions_with_{d}_deviations"), *n);
+        }
+        if st.capped {
+            wc.count("capped_units", 1);
+        }
+        wc.note(
+            "unit",
+            json!({"session": s.name, "upto": upto, "bound": bound, "executions": st.executions, "choice_points": st.max_points, "distinct_outcomes": st.distinct_outcomes}),
+        );
+        for f in found {
+            wc.violation(&Violation { key: f.key, what: f.what, witness: f.witness });
+        }
+        wc.checkpoint();
+    }
+    wc.finish();
+}
+
+pub fn worker(ctx: &Ctx, wc: WorkerCtx, _extra: &[String]) {
+    worker_for(Focus::C16, ctx, wc)
+}
+
+fn describe_crash(desc: &[u8], how: &str) -> (String, String, Value) {
+    let d = String::from_utf8_lossy(desc).to_string();
+    let mut it = d.split(':');
+    let name = it.next().unwrap_or("").to_string();
+    let upto: usize = it.next().and_then(|x| x.parse().ok()).unwrap_or(0);
+    (
+        format!("process-died:{name}"),
+        format!("exploring session {name} (crash point {upto}) killed or stalled the worker ({how})"),
+        json!({"kind": "session-unit", "session": name, "upto": upto}),
+    )
+}
+
+pub fn run_terminal(ctx: &Ctx, focus: Focus, prop: &'static str) -> Result<workers::Merged, String> {
+    let n_units = units(focus).len();
+    let spec = workers::Spec {
+        prop,
+        tier: ctx.tier,
+        seed: ctx.seed,
+        shards: n_units.min(ctx.threads * 3).max(1),
+        parallel: ctx.threads,
+        extra_args: vec![],
+        stall_timeout: Duration::from_secs(120),
+        max_restarts_per_shard: 3,
+        deadline: Instant::now() + Duration::from_secs_f64(ctx.wall_cap_s),
+    };
+    let merged = workers::run_shards(&spec, &describe_crash)?;
+    if let Some(errs) = merged.notes.get("machinery_error") {
+        return Err(format!("terminal exploration: {}", errs[0]));
+    }
+    Ok(merged)
+}
+
+pub fn run(ctx: &Ctx) -> Result<Report, String> {
+    let viol = Violations::new();
+    let samples = Samples::new(ctx.seed);
+    let (depth, cap) = ctx.tier.pick((8, 10), (12, 14));
+    let q = super::ioqueue::explore(ctx, depth, cap, &viol, &samples);
+    let merged = run_terminal(ctx, Focus::C16, "C16")?;
+    let c = |k: &str| merged.counters.get(k).copied().unwrap_or(0);
+    let mut r = Report::new("model_checking");
+    let mut s = samples.into_vec();
+    if let Some(u) = merged.notes.get("unit") {
+        s.extend(u.iter().take(3).cloned());
+    }
+    r.set("states", q.states)
+        .set("transitions", q.transitions)
+        .set("traces_validated_against_impl", q.transitions + c("executions"))
+        .set("ioqueue", json!({"states": q.states, "transitions": q.transitions, "levels": q.levels, "depth_bound": depth, "payload_cap": cap, "fixpoint": q.fixpoint, "capped": q.capped}))
+        .set("terminal_schedules_explored", c("executions"))
+        .set("terminal_counters", json!(merged.counters))
+        .set("terminal_units", json!(merged.notes.get("unit").cloned().unwrap_or_default()))
+        .set("exhaustive", !q.capped && !merged.capped && c("capped_units") == 0)
+        .set("capped", q.capped || merged.capped || c("capped_units") > 0)
+        .set("samples", s);
+    r.assume("kernel model of the H2 seam: write accepts a prefix or fails with EAGAIN/EINTR, select may omit tty writability or fail with EINTR but never invents readiness, a waker write is atomic");
+    r.assume("the peer answers the DA1 query as soon as it has received it; TERM=dumb (no capability probing)");
+    r.assume("encoding of commands is taken from the library's encoder (C05 judges it); here only transport is judged");
+    viol.extend(merged.violations);
+    r.violations = viol.into_vec();
+    Ok(r)
+}
+
+pub fn replay(w: &Value) -> Result<(bool, String), String> {
+    match w["kind"].as_str() {
+        Some("ioqueue") => super::ioqueue::replay(w),
+        Some("session") => tc::replay_session(w),
+        Some("session-unit") => {
+            // re-explore the unit (used to confirm a worker death)
+            tc::prepare_process();
+            let name = w["session"].as_str().ok_or("session")?;
+            let upto = w["upto"].as_u64().ok_or("upto")? as usize;
+            let all: Vec<tc::Session> = tc::sessions_c16().into_iter().chain(tc::sessions_c17()).collect();
+            let s = all.iter().find(|s| s.name == name).ok_or("unknown session")?;
+            let mut found = vec![];
+            let st = tc::explore_session(Focus::C16, s, upto, 1, 100_000, &mut found)?;
+            Ok((false, format!("unit re-explored: {} executions, {} findings", st.executions, found.len())))
+        }
+        _ => Err("unknown witness kind".into()),
+    }
 }
